@@ -1093,6 +1093,8 @@ def ihu_minimize_error(
             idxs_hw = list()
             if not fixed:
                 for idx1 in idxs_d8:
+                    if subidxs_out[idx1] == mv:  # neighbor without outlet pixel
+                        continue
                     idx = idx1
                     upa = subuparea[subidxs_out[idx1]]
                     hor = abs(idx1 - idx0) == 1
